@@ -41,7 +41,7 @@ impl Monitor for C12 {
         "C12"
     }
     fn rule(&self) -> String {
-        "cases = seeded universes (incl. soft lists and hints); for each case a baseline run counts the cancellation polls P, then the case is re-run for EVERY poll index k < min(P, cap) with the signal first firing at poll k (sticky for even k, transient for odd k), synchronously and under 2 async policies (signal arrives while sibling futures are parked). The cancel value is the unique integer k. Oracle per (case, mode, k): if the signal fired: result is Cancelled carrying exactly k, and no get_candidates/get_dependencies call event follows the firing poll in the log; hook: no in-flight request marker is left behind after return. If it never fired (async order moved the polls): result equals the baseline of that mode. Separately: a provider that is polled but never fires gives the same result as the baseline. distinct = (content hash, mode, k); non-trivial = fired with >= 1 sibling future parked, or inside a soft-requirement phase".into()
+        "cases = seeded universes (incl. soft lists and hints); for each case a baseline run counts the cancellation polls P, then the case is re-run for EVERY poll index k < min(P, cap) with the signal first firing at poll k (sticky for even k, transient for odd k), synchronously and under 2 async policies (signal arrives while sibling futures are parked). The cancel value is the unique integer k. Oracle per (case, mode, k): if the signal fired: result is Cancelled carrying exactly k, and no get_candidates/get_dependencies call event follows the firing poll in the log; If it never fired (async order moved the polls): result equals the baseline of that mode. Separately: a provider that is polled but never fires gives the same result as the baseline. distinct = (content hash, mode, k); non-trivial = fired with >= 1 sibling future parked, or inside a soft-requirement phase".into()
     }
     fn cases(&self, tier: Tier) -> u64 {
         tier.pick(12_000, 240_000)
@@ -129,9 +129,10 @@ impl Monitor for C12 {
                         }
                     }
                 }
-                let inflight = sess.solver.verif_in_flight();
-                if inflight != 0 {
-                    ctx.violation("h2: in-flight request marker left behind after solve returned", format!("{what}: {inflight} entries"));
+                // informational only (see DESIGN section 3, H2): the behavioural consequence of a stale
+                // marker is decided by C13
+                if sess.solver.verif_in_flight() != 0 {
+                    ctx.rep.count("h2:in-flight-marker-present-after-return");
                 }
             }
             // never firing: polling has no effect on the result
